@@ -267,10 +267,14 @@ def publications {M S : Type} : List (Ev M S) → List S
 /-! ## `loadCertificates` -/
 
 /-- What a PEM file holds, as far as `tls.X509KeyPair` cares: possibly a certificate (by id) and possibly a
-private key (by the id of the certificate it belongs to). -/
+private key (by the id of the certificate it belongs to) — and `rest`, everything else about its bytes that plays
+no part in pairing (which further `CERTIFICATE` blocks follow the leaf: the chain variant). Two files with the same
+leaf and key but a different `rest` are different material for `reflect.DeepEqual` in `watch`, and equal for
+`pairCert`. -/
 structure FileC where
   cert : Option Nat
   key : Option Nat
+  rest : Nat := 0
 deriving DecidableEq, Repr
 
 abbrev Blocks := List (Name × FileC)
